@@ -18,6 +18,13 @@ Theorem C13_serials : forall hdr_fields ops c' evs, Forall op_wf ops ->
 Proof. exact serials_fresh_increasing. Qed.
 Print Assumptions C13_serials.
 
+(* The history alphabet (Conn/Serial.v op): alloc_serial; a send written to the end; a send suspended,
+   k allocations, resumed; a send that is NOT completed - context dropped at zero bytes (socket full),
+   force_finish / force_finish_on_error after a partial write, write / write_all /
+   send_message_write_all failing with an I/O error (EBADF, EPIPE). C13_serials, C13_step,
+   C13_later_exceeds_earlier and C13_history_outcome quantify over all sequences of these: an abandoned
+   send keeps its serial consumed (EvAbandoned is part of [issued]), nothing hands a serial back. *)
+
 (* one operation, in particular a send that is suspended after a partial write (into_progress), sees k
    calls of alloc_serial and is resumed (resume): the serial of the resumed context - the one write()
    returns - is the preset one or the one chosen by send_message and is the one in the header that
@@ -52,6 +59,25 @@ Theorem C13_header_serial : forall hdr_fields m s hb, s < 2^32 ->
   marshal hdr_fields m s [] = Ok hb -> wire_serial hb = Some s /\ 16 <= len hb.
 Proof. intros f m s hb Hs H. split; [eapply marshal_wire_serial|eapply marshal_len_ge_16]; eauto. Qed.
 Print Assumptions C13_header_serial.
+
+(* many allocations at once (harness op x<n>, used to reach the end of the serial space) are k calls of
+   alloc_serial: same connection afterwards, the last serial returned, the same panic *)
+Theorem C13_alloc_many : forall k c, conn_ok c -> 1 <= k ->
+  match alloc_n (N.to_nat k) c with
+  | Ok (c', ss) => alloc_many k c = Ok (c', last ss 0)
+  | Panic => alloc_many k c = Panic
+  | _ => False
+  end.
+Proof. exact alloc_many_spec. Qed.
+Print Assumptions C13_alloc_many.
+
+(* send_hello accepts exactly the replies whose reply serial is the serial of its Hello, and the reply
+   make_response builds from the received Hello is one *)
+Theorem C13_hello_correlation : forall serial resp call,
+  (hello_matches serial resp = true <-> dh_response_serial resp = Some serial)
+  /\ (dh_serial call = Some serial -> hello_matches serial (msg_dyn (make_response call)) = true).
+Proof. intros serial resp call. split; [apply hello_correlation|apply hello_reply_accepted]. Qed.
+Print Assumptions C13_hello_correlation.
 
 Theorem C13_u32_roundtrip : forall bo v, v < 2^32 -> parse_u32 (u32_bytes bo v) bo = Ok v.
 Proof. exact parse_write_u32. Qed.
